@@ -202,8 +202,14 @@ def impl_roles(tmp, soc, cfg_text, queries):
     cfgp = None
     if cfg_text is not None:
         cfgp = os.path.join(tmp, "k.config")
-        with open(cfgp, "w", encoding="utf-8") as fh:
-            fh.write(cfg_text)
+        # line ends are not content: every third file (by content) is written with CRLF line ends, every seventh without a final line end
+        import zlib
+        sel = zlib.crc32(cfg_text.encode("utf-8"))
+        raw = cfg_text.replace("\n", "\r\n") if sel % 3 == 0 and "\r" not in cfg_text else cfg_text
+        if sel % 7 == 0 and raw.endswith("\n") and "\r" not in cfg_text:
+            raw = raw.rstrip("\r\n")
+        with open(cfgp, "w", encoding="utf-8", newline="") as fh:
+            fh.write(raw)
     st = (EnvelopeStorageNrf54h20 if soc == 0 else EnvelopeStorageNrf9280)(0x1000, kconfig=cfgp)
     out = []
     for v, c in queries:
